@@ -8,7 +8,6 @@ NA = {
  "C01": "soundness is a meta-theorem over typing derivations x VM runs; the per-operator lemmas live in Product/Unit/DType iterator code neither Verus nor Kani can process; the known exponent mismatch is a cross-phase disagreement no single-function postcondition expresses (DESIGN 5)",
  "C03": "numerical-accuracy claim ('up to floating-point rounding') over Product/Unit iterator code: Verus cannot state an f64 tolerance or take the code, Kani cannot run it (>25 min for one same-unit addition) (DESIGN 5)",
  "C07": "a relation between DIFFERENT input histories (incremental vs batched vs replayed); no contract on one call states it (DESIGN 5)",
- "C10": "grammar conformance = equality with a second parser; closure-driven recursive descent over &str tokens is outside Verus (DESIGN 5)",
  "C13": "quantifies over the loaded prelude (a finite configuration that must be executed); PrefixParser is &str suffix logic over an IndexMap, outside Verus (DESIGN 5)",
  "C14": "digit generation, rounding and grouping are pretty_dtoa / num_format; numbat contributes a branch and string trimming (DESIGN 5)",
  "C15": "pretty-printer <-> parser round trip over the whole AST (strings, decorators, generics): a language-level theorem, not a function contract (DESIGN 5)",
@@ -40,6 +39,8 @@ TEXT = {
          "contract-based deductive verification (Verus) of the real convert_to / no_simplify / with_conversion_target / ConvertTo arm; loop abstracted by havoc"),
  "C05": ("other", "4.9", "PARTIAL (one clause): Verus proves that full_simplify and full_simplify_with_registry return a value marked by an explicit conversion unchanged (the marking itself is proved for the ConvertTo arm). Preservation of dimension and magnitude by the simplification heuristics is NOT covered.",
          "contract-based deductive verification (Verus) of the can_simplify guards of the real full_simplify / full_simplify_with_registry (function tails abstracted)"),
+ "C10": ("other", "4.10", "PARTIAL (operator levels only): Verus proves for all token sequences that every precedence-level function of the real recursive-descent parser (condition .. unicode_power, and the generic parse_binop with its closures) returns exactly the tree that the documented precedence/associativity table prescribes for the tokens it consumed (spec relation g written from book/src/basics/operations.md). call/primary/arguments, `|>`, statements, the tokenizer and completeness of acceptance are not covered.",
+         "contract-based deductive verification (Verus) of the real parser level functions against a recursive grammar relation; higher-order contracts (call_requires / call_ensures) for parse_binop's closures"),
  "C09": ("other", "4.6", "PARTIAL (bytecode encoding layer only): Verus proves layout and little-endian round-trip contracts on the real Vm::{push_u16, add_op*, patch_u16_value_at, read_byte, read_u16}: an operand written by the compiler or patcher is the operand the interpreter reads, and bytes/spans stay in lock step. Compilation order, slots, jumps distances, call frames are NOT covered.",
          "contract-based deductive verification (Verus) of the VM byte-encoding helpers"),
  "C08": ("other", "5", "PARTIAL: panic-freedom of every function under contract in all units (arithmetic overflow, indexing, unwrap/expect, unreachable!, assert!/debug_assert! become Verus obligations under the stated preconditions). NOT the whole pipeline: tokenizer, parser, type checker, Product/Unit/DType arithmetic, diagnostics and promptness are outside; the three crashes named in the statement are outside every unit and are not detected.",
